@@ -273,6 +273,16 @@ func decodeWName(b []byte) string {
 	return strings.Join(labels, ".")
 }
 
+// envText: the same for a message (panics of the test servers: no local port to listen on)
+func envText(m string) bool {
+	for _, k := range []string{"failed to listen on a port", "address already in use", "too many open files", "cannot assign requested address", "service url must use https"} {
+		if strings.Contains(m, k) {
+			return true
+		}
+	}
+	return false
+}
+
 // envError: failures of the test environment itself (descriptor / port exhaustion, overload), never findings.
 func envError(err error) bool {
 	if err == nil {
